@@ -1,6 +1,7 @@
 package main
 
 import (
+	"sort"
 	"os"
 	"fmt"
 	"go/constant"
@@ -101,6 +102,178 @@ func (e *Engine) newObj(c *Ctx, o *Obj) int {
 	o.Epoch = id
 	c.S.Heap[id] = o
 	return id
+}
+
+// ---------- guarded lists ----------
+
+// materialise forces the positional array of an appended slice (in place: Obj content is immutable otherwise, and the
+// result is a deterministic function of it, so caching inside the shared Obj is safe).
+func materialise(o *Obj) *Obj {
+	if o.Val != nil || o.Thunk == nil {
+		return o
+	}
+	th := o.Thunk
+	var tail []Value
+	var tailLen *Term
+	if th.StrTail != nil {
+		f := fl(*th.StrTail)
+		for _, b := range f.B {
+			tail = append(tail, IntV{b})
+		}
+		tailLen = f.Len
+	} else {
+		tail, tailLen = viewOf(th.Tail, o.ElemZ)
+	}
+	k := len(tail)
+	if tailLen.IsConst() && int(tailLen.val) < k {
+		k = int(tailLen.val)
+		tail = tail[:k]
+	}
+	old, oldLen := viewOf(th.Base, o.ElemZ)
+	hi := len(old)
+	if oldLen.IsConst() && int(oldLen.val) < hi {
+		hi = int(oldLen.val)
+		old = old[:hi]
+	}
+	lo := 0
+	if oldLen.hasIv {
+		lo = int(oldLen.lo)
+	}
+	n := hi + k
+	el := make([]Value, n)
+	for j := 0; j < n; j++ {
+		var v Value = o.ElemZ
+		if j < hi {
+			v = old[j]
+		}
+		for t := 0; t < k; t++ {
+			if j-t < lo || j-t > hi {
+				continue
+			}
+			v = mergeV(Eq(oldLen, BV(64, uint64(j-t))), tail[t], v)
+		}
+		el[j] = v
+	}
+	o.Val = ArrayV{el}
+	return o
+}
+
+// viewOf: merged positional view (elements, length) of guarded slice alternatives given by object pointers.
+func viewOf(alts []thunkAlt, zeroEl Value) ([]Value, *Term) {
+	hi := 0
+	for _, a := range alts {
+		if a.O == nil {
+			continue
+		}
+		h := a.Cap
+		if a.Len.hasIv && int(a.Len.hi) < h {
+			h = int(a.Len.hi)
+		}
+		if h > hi {
+			hi = h
+		}
+	}
+	var ln *Term = BV(64, 0)
+	el := make([]Value, hi)
+	for i := range el {
+		el[i] = zeroEl
+	}
+	for ai, a := range alts {
+		if ai == 0 {
+			ln = a.Len
+		} else {
+			ln = Ite(a.G, a.Len, ln)
+		}
+		if a.O == nil {
+			continue
+		}
+		arr := materialise(a.O).Val.(ArrayV)
+		for i := 0; i < hi && a.Off+i < len(arr.E); i++ {
+			if ai == 0 || len(alts) == 1 {
+				el[i] = arr.E[a.Off+i]
+			} else {
+				el[i] = mergeV(a.G, arr.E[a.Off+i], el[i])
+			}
+		}
+	}
+	return el, ln
+}
+
+// arr returns the positional array of an array/list object, materialising it once.
+func (e *Engine) arr(c *Ctx, id int) ArrayV {
+	return materialise(c.S.Heap[id]).Val.(ArrayV)
+}
+
+func listCount(l []ListEntry) *Term {
+	var t *Term = BV(64, 0)
+	lo := 0
+	for _, en := range l {
+		t = Add(t, Ite(en.G, BV(64, 1), BV(64, 0)))
+		if en.G.IsTrue() {
+			lo++
+		}
+	}
+	return withIv(t, uint64(lo), uint64(len(l)))
+}
+
+
+var nextUID int
+
+func freshUID() int { nextUID++; return nextUID }
+
+// listView: the elements of a guarded slice value as one guarded list (order preserved). Lists are append-only and
+// every appended element carries a unique event id, so the lists of several alternatives are combined by event id:
+// an element present in several alternatives appears once, under the disjunction of its guards.
+func (e *Engine) listView(c *Ctx, s SliceV, et types.Type) []ListEntry {
+	var lists [][]ListEntry
+	var guards []*Term
+	for _, a := range s.Alts {
+		if a.G.IsFalse() {
+			continue
+		}
+		var l []ListEntry
+		if a.Obj != -1 {
+			o := c.S.Heap[a.Obj]
+			if o.HasList && a.Off == 0 && a.Len == listCount(o.List) {
+				l = o.List
+			} else {
+				av := e.arr(c, a.Obj)
+				n := a.Cap
+				if a.Len.hasIv && int(a.Len.hi) < n {
+					n = int(a.Len.hi)
+				}
+				for i := 0; i < n && a.Off+i < len(av.E); i++ {
+					l = append(l, ListEntry{Ult(BV(64, uint64(i)), a.Len), av.E[a.Off+i], freshUID()})
+				}
+			}
+		}
+		lists = append(lists, l)
+		guards = append(guards, a.G)
+	}
+	if len(lists) == 0 {
+		return nil
+	}
+	if len(lists) == 1 {
+		return lists[0]
+	}
+	idx := map[int]int{}
+	var out []ListEntry
+	for i, l := range lists {
+		for _, en := range l {
+			g := And(guards[i], en.G)
+			if g.IsFalse() {
+				continue
+			}
+			if k, ok := idx[en.U]; ok {
+				out[k].G = Or(out[k].G, g)
+				continue
+			}
+			idx[en.U] = len(out)
+			out = append(out, ListEntry{g, en.V, en.U})
+		}
+	}
+	sort.SliceStable(out, func(i, j int) bool { return out[i].U < out[j].U })
+	return out
 }
 
 // ---------- post-dominators ----------
@@ -233,6 +406,10 @@ func (e *Engine) mergeObj(c *Term, a, b *Obj) *Obj {
 		}
 		return &Obj{IsIter: true, Cands: a.Cands, CandObj: a.CandObj, MapObj: a.MapObj, Cur: cur, Epoch: a.Epoch, EffC: a.EffC, ValC: a.ValC, VerC: a.VerC}
 	}
+	if a.Thunk != nil && a.Thunk == b.Thunk {
+		return a
+	}
+	a, b = materialise(a), materialise(b)
 	return &Obj{Val: mergeV(c, a.Val, b.Val), Epoch: a.Epoch}
 }
 
@@ -424,10 +601,24 @@ func varsOf(t *Term) []int32 {
 }
 
 func sliceRelevant(pc *Term) *Term {
-	if pc.op != OAnd || len(pc.args) < 8 {
+	if pc.op != OAnd || len(pc.args) < 2 {
 		return pc
 	}
-	conj := pc.args
+	var conj []*Term
+	var flat func(t *Term)
+	flat = func(t *Term) {
+		for _, a := range t.args {
+			if a.op == OAnd {
+				flat(a)
+			} else {
+				conj = append(conj, a)
+			}
+		}
+	}
+	flat(pc)
+	if len(conj) < 8 {
+		return pc
+	}
 	// union-find over variables
 	parent := map[int32]int32{}
 	var find func(x int32) int32
@@ -561,6 +752,7 @@ func (e *Engine) load(c *Ctx, p PtrV, what string) Value {
 		if o == nil {
 			unsup("dangling object %d", a.Obj)
 		}
+		materialise(o)
 		v := getPath(o.Val, a.Path)
 		if res == nil {
 			res = v
@@ -582,6 +774,7 @@ func (e *Engine) store(c *Ctx, p PtrV, v Value, what string) {
 			continue
 		}
 		o := c.S.Heap[a.Obj]
+		materialise(o)
 		old := getPath(o.Val, a.Path)
 		nv := v
 		if !a.G.IsTrue() && len(p.Alts) > 1 {
@@ -1211,7 +1404,7 @@ func (e *Engine) step(fr *Frame, c *Ctx, in ssa.Instruction) bool {
 				if a.Obj == -1 {
 					continue
 				}
-				alen := len(c.S.Heap[a.Obj].Val.(ArrayV).E)
+				alen := len(e.arr(c, a.Obj).E)
 				if idx.IsConst() {
 					if a.Off+int(idx.val) < alen {
 						alts = addPtrAlt(alts, PtrAlt{a.G, a.Obj, []int{a.Off + int(idx.val)}})
@@ -1512,7 +1705,7 @@ func (e *Engine) convert(c *Ctx, x *ssa.Convert) Value {
 				if a.Obj == -1 {
 					s = StrC("")
 				} else {
-					arr := c.S.Heap[a.Obj].Val.(ArrayV)
+					arr := e.arr(c, a.Obj)
 					n := a.Cap
 					if a.Len.hasIv && int(a.Len.hi) < n {
 						n = int(a.Len.hi)
@@ -1758,7 +1951,7 @@ func (e *Engine) sliceView(c *Ctx, s SliceV, et types.Type) ([]Value, *Term) {
 		if a.Obj == -1 {
 			continue
 		}
-		arr := c.S.Heap[a.Obj].Val.(ArrayV)
+		arr := e.arr(c, a.Obj)
 		for i := 0; i < hi && a.Off+i < len(arr.E); i++ {
 			if ai == 0 || len(s.Alts) == 1 {
 				el[i] = arr.E[a.Off+i]
@@ -1770,58 +1963,65 @@ func (e *Engine) sliceView(c *Ctx, s SliceV, et types.Type) ([]Value, *Term) {
 	return el, ln
 }
 
-// appendSlice models append as copy-on-append (a fresh backing array every time; aliasing of a shared backing
-// array between two appends to the same slice is outside the model and does not occur in the code under test).
+// appendSlice models append as copy-on-append (a fresh object every time; aliasing of a shared backing array between
+// two appends to the same slice is outside the model and does not occur in the code under test). The result is a
+// guarded list: elements keep their presence guards, positions are only computed if somebody indexes the slice.
 func (e *Engine) appendSlice(c *Ctx, s SliceV, more Value, et types.Type) Value {
-	var tail []Value
-	var tailLen *Term
+	l := append([]ListEntry(nil), e.listView(c, s, et)...)
 	switch m := more.(type) {
 	case SliceV:
-		tail, tailLen = e.sliceView(c, m, et)
+		for _, en := range e.listView(c, m, et) {
+			l = append(l, ListEntry{en.G, en.V, freshUID()})
+		}
 	case StrV: // append([]byte, string...)
 		f := fl(m)
-		for _, b := range f.B {
-			tail = append(tail, IntV{b})
+		for i, b := range f.B {
+			l = append(l, ListEntry{Ult(BV(64, uint64(i)), f.Len), IntV{b}, freshUID()})
 		}
-		tailLen = f.Len
 	}
-	k := len(tail)
-	if tailLen.IsConst() && int(tailLen.val) < k {
-		k = int(tailLen.val)
-		tail = tail[:k]
-	}
-	old, oldLen := e.sliceView(c, s, et)
-	hi := len(old)
-	if oldLen.IsConst() && int(oldLen.val) < hi {
-		hi = int(oldLen.val)
-		old = old[:hi]
-	}
-	lo := 0
-	if oldLen.hasIv {
-		lo = int(oldLen.lo)
-	}
-	n := hi + k
-	el := make([]Value, n)
-	for j := 0; j < n; j++ {
-		var v Value = zero(et)
-		if j < hi {
-			v = old[j]
-		}
-		// positions oldLen..oldLen+k-1 take the tail
-		for t := 0; t < k; t++ {
-			if j-t < lo || j-t > hi {
-				continue
+	th := &appThunk{}
+	mk := func(sv SliceV) []thunkAlt {
+		var out []thunkAlt
+		for _, a := range sv.Alts {
+			ta := thunkAlt{G: a.G, Off: a.Off, Len: a.Len, Cap: a.Cap}
+			if a.Obj != -1 {
+				ta.O = c.S.Heap[a.Obj]
 			}
-			v = mergeV(Eq(oldLen, BV(64, uint64(j-t))), tail[t], v)
+			out = append(out, ta)
 		}
-		el[j] = v
+		return out
 	}
-	id := e.newObj(c, &Obj{Val: ArrayV{el}})
-	nl := Add(oldLen, tailLen)
-	if oldLen.hasIv && tailLen.hasIv {
-		nl = withIv(nl, oldLen.lo+tailLen.lo, oldLen.hi+tailLen.hi)
+	th.Base = mk(s)
+	capN := 0
+	for _, a := range th.Base {
+		h := a.Cap
+		if a.Len.hasIv && int(a.Len.hi) < h {
+			h = int(a.Len.hi)
+		}
+		if a.O != nil && h > capN {
+			capN = h
+		}
 	}
-	return SliceV{[]SliceAlt{{TTrue, id, 0, nl, n}}}
+	tcap := 0
+	switch m := more.(type) {
+	case SliceV:
+		th.Tail = mk(m)
+		for _, a := range th.Tail {
+			h := a.Cap
+			if a.Len.hasIv && int(a.Len.hi) < h {
+				h = int(a.Len.hi)
+			}
+			if a.O != nil && h > tcap {
+				tcap = h
+			}
+		}
+	case StrV:
+		f := fl(m)
+		th.StrTail = &f
+		tcap = len(f.B)
+	}
+	id := e.newObj(c, &Obj{List: l, HasList: true, ElemZ: zero(et), Thunk: th})
+	return SliceV{[]SliceAlt{{TTrue, id, 0, listCount(l), capN + tcap}}}
 }
 
 // invoke dispatches an interface method call over the guarded alternatives of the receiver.
